@@ -98,6 +98,12 @@ def main():
         "at-most-once across a Trim is not claimed: after Trim(duty) the store starts afresh for that duty (the repo's own TestMemDBThreshold expects a second trigger); with the real deadliner Add answers Expired from then on, except for calls whose Add raced the deadline",
         "exempt duties: theorems hold under no_evict (no (share, validator, duty type) gets more than 10 accepted exempt entries, i.e. evictExemptShareEntryUnsafe never runs); C07_evict_refire_witness shows the guard is necessary. On evicting histories the check applies trace inclusion and an independent duplicate-delivery detector",
     ]
+    # the store's threshold is the aggregator's threshold, lock.Threshold: a fact about app/app.go wireCoreWorkflow,
+    # regenerated from the source on every run (translator/appwire -> coq/gen/AppWiring.v; theorem C07_app_threshold)
+    rc, out = vp.run_translator("appwire", "AppWiring.v")
+    R.coverage["translator_appwire"] = out.strip().splitlines()[-1] if out.strip() else "rc=%d" % rc
+    if rc != 0:
+        R.broke("translator:appwire failed on %s/app/app.go wireCoreWorkflow (a construction shape it can not interpret; obligation C07_app_threshold)" % vp.REPO, out[-3000:])
     R.proofs()
     n = 1500 if R.thorough else 300
     perm = 5 if R.thorough else 4
